@@ -198,10 +198,12 @@ def compile_only(text, predicate, user_flags=None, import_root=None, rules=None)
   return Outcome('sql', sql=formatted, statements=statements)
 
 
-def run_workflow(text, predicates, rules=None, user_flags=None, probe=None, import_root=None, one_program=True):
+def run_workflow(text, predicates, rules=None, user_flags=None, probe=None, import_root=None, one_program=True, calls=None):
   """The path of tools/run_in_terminal.py (Run / RunMany): one LogicaProgram, FormattedPredicateSql per
   requested predicate, concertina_lib.ExecuteLogicaProgram with the tool's own SqlRunner on SQLite.
-  Returns (results {pred: Outcome}, trace [(action name or None, sql, is_final)], executions) or (None, None, Outcome)."""
+  Returns (results {pred: Outcome}, trace [(action name or None, sql, is_final)], executions) or (None, None, Outcome).
+  calls: optional list that receives one dict per sql_runner call {sql, is_final, lo, hi, error}; lo:hi is the slice of
+  probe.per_statement (SQLite statements observed by the authorizer/trace probe) executed by that call."""
   m = mods()
   from common import concertina_lib
   from tools import run_in_terminal
@@ -237,8 +239,17 @@ def run_workflow(text, predicates, rules=None, user_flags=None, probe=None, impo
         raise RuntimeError('runaway workflow: more than 20000 statements')
       import io
       import contextlib
-      with contextlib.redirect_stdout(io.StringIO()):
-        return runner(sql, engine, is_final)
+      rec = {'sql': sql, 'is_final': is_final, 'lo': len(probe.per_statement) if probe is not None else 0, 'hi': None, 'error': None}
+      if calls is not None:
+        calls.append(rec)
+      try:
+        with contextlib.redirect_stdout(io.StringIO()):
+          return runner(sql, engine, is_final)
+      except BaseException as e:
+        rec['error'] = '%s: %s' % (type(e).__name__, str(e)[:200])
+        raise
+      finally:
+        rec['hi'] = len(probe.per_statement) if probe is not None else 0
     results = concertina_lib.ExecuteLogicaProgram(executions, recording_runner, 'sqlite', display_mode='silent')
     out = {}
     for p in predicates:
